@@ -680,7 +680,10 @@ def rule_r3(prog, res) -> None:
                 asked = [ev for ev in p.calls("is_compatible") if isinstance(ev.expr.func, ast.Attribute) and (isinstance(ev.expr.func.value, ast.Call) and isinstance(ev.expr.func.value.func, ast.Name) and ev.expr.func.value.func.id == "super" or (isinstance(ev.expr.func.value, ast.Name) and ev.expr.func.value.id[:1].isupper()))]
                 in_value = any(isinstance(y, ast.Call) and isinstance(y.func, ast.Attribute) and y.func.attr == "is_compatible" for y in ast.walk(p.value))
                 denied = any(pol is False and any(isinstance(y, ast.Call) and isinstance(y.func, ast.Attribute) and y.func.attr == "is_compatible" for y in ast.walk(t)) for t, pol in p.literals())
-                if (not asked and not in_value) or (denied and not (isinstance(p.value, ast.Constant) and p.value.value is False)):
+                # … and every answer that was asked for counts: it is part of the returned verdict or was tested true
+                vtxt = unparse(p.value)
+                ignored = [ev for ev in asked if unparse(ev.expr) not in vtxt and not any(unparse(ev.expr) in unparse(t) for t, pol in p.literals())]
+                if (not asked and not in_value) or ignored or (denied and not (isinstance(p.value, ast.Constant) and p.value.value is False)):
                     skipped.append(p)
             if skipped and tpaths:
                 res.violation("C17.R3", m, skipped[0].node or m.node, f"{ci.name}.is_compatible can accept without a positive answer of {', '.join(b.name for b in bases_with)}.is_compatible (not asked, or asked and overruled): the binning / patch comparison of the base class does not count, containers with another binning pass as compatible and are combined", key_extra=f"is-compatible-skips-base-{ci.name}")
